@@ -524,13 +524,17 @@ func (e *Engine) fnIdentity(st *State, v Value) Term {
 		return f.ID
 	case ClosureV:
 		if len(f.Bind) == 0 {
-			return e.ctx.Const("fnid:"+f.Fn.String(), SInt)
+			c := e.ctx.Const("fnid:"+f.Fn.String(), SInt)
+			st.assume(Neq(c, IntLit(0))) // a declared function is never the nil func value
+			return c
 		}
 		id := st.alloc()
 		e.closures[id.S] = f
 		return id
 	case *ssa.Function:
-		return e.ctx.Const("fnid:"+f.String(), SInt)
+		c := e.ctx.Const("fnid:"+f.String(), SInt)
+		st.assume(Neq(c, IntLit(0)))
+		return c
 	}
 	panic(unsupported(fmt.Sprintf("function identity of %T", v)))
 }
